@@ -795,7 +795,10 @@ impl Scenario for Death {
                     _ => true,
                 };
                 let clean_ok = clean_ok || (!presented && r == "Err(MissedServerHeartbeats)");
-                if !want.contains(&r) && !clean_ok {
+                // (unsolicited replies are a server fault the statement says nothing specific about:
+                // stale replies make the channel's own calls fail, handles get dropped with their
+                // slot alive - any cause may win; what matters is that everything ends)
+                if !want.contains(&r) && !clean_ok && fault != "unsolicited" {
                     v.push((format!("death:close-result:{}", r), format!("Connection::close returned {} expected {:?} (fault {}); main log {:?}", r, want, fault, main)));
                 }
                 if r == "Ok" && !got_closeok {
